@@ -29,13 +29,13 @@ def runs(draw, tier):
     t = draw(st.sampled_from(["complex", "density"])) if with_bases else "positive"
     n = draw(st.integers(2, 5 if t != "density" else 4))
     big = draw(st.integers(0, 24)) == 0
-    N = draw(st.integers(101, 260)) if big else draw(st.integers(1, 12))     # big: more rows than the default batch size of 100
+    N = (draw(st.integers(101, 260)) if draw(st.booleans()) else draw(st.integers(1025, 1200))) if big else draw(st.integers(1, 12))     # big: more rows than the default batch size of 100 / than 1024
     idx = draw(st.lists(st.integers(0, 2 ** n - 1), min_size=N, max_size=N))
     if N >= 2 and draw(st.booleans()):
         j = draw(st.integers(1, N - 1))
         idx[j] = idx[0]                      # forced duplicate row
     if big:
-        pbs, ep = draw(st.sampled_from([None, None, 64, 100, 128])), draw(st.integers(1, 2))     # None = the library's default (100)
+        pbs, ep = draw(st.sampled_from([None, None, 64, 100, 128, 500])), draw(st.integers(1, 3))     # None = the library's default (100)
     elif N >= 3 and draw(st.integers(0, 2)) > 0:     # construct the tail-batch class (N = mB + r) instead of hoping for it
         pbs = draw(st.sampled_from([b for b in range(2, N) if N % b] or [N + 1]))
         ep = draw(st.integers(2, 3))
@@ -43,7 +43,7 @@ def runs(draw, tier):
         pbs, ep = draw(st.integers(1, N + 2)), draw(st.integers(1, 3))
     c = {"type": t, "n": n, "idx": idx, "pbs": pbs, "nbs": draw(st.one_of(st.none(), st.integers(1, 6))),
          "epochs": ep, "form": draw(st.sampled_from(["tensor", "ndarray", "list", "int_ndarray", "float32_tensor", "long_tensor", "tuple", "float32_ndarray"])),
-         "torch_seed": draw(st.integers(0, 2 ** 31 - 1)), "k": draw(st.integers(0, 2))}
+         "torch_seed": draw(st.integers(0, 2 ** 31 - 1)), "k": draw(st.integers(0, 2)), "np_sizes": draw(st.integers(0, 3)) == 0}
     if with_bases:
         bs = [draw(gen.basis_string(n)) if draw(st.booleans()) else "Z" * n for _ in range(N)]
         if N >= 3 and draw(st.booleans()):
@@ -113,8 +113,10 @@ def check(c):
               callbacks=[LambdaCallback(on_epoch_start=lambda s, e: epochs.append(e)), guard])
     if bases is not None:
         kw["input_bases"] = bases
+    if c.get("np_sizes"):
+        kw["neg_batch_size"] = None if c["nbs"] is None else np.int64(c["nbs"])      # sizes computed with numpy
     if c["pbs"] is not None:
-        kw["pos_batch_size"] = c["pbs"]
+        kw["pos_batch_size"] = np.int64(c["pbs"]) if c.get("np_sizes") else c["pbs"]
     state.fit(data, **kw)
 
     if diverged[0]:
